@@ -328,7 +328,7 @@ impl Property for C15 {
         ]
     }
     fn cases(&self, tier: Tier) -> u32 {
-        tier.pick(15_000, 1_500_000)
+        tier.pick(60_000, 1_500_000)
     }
     fn strategy(&self, tier: Tier) -> BoxedStrategy<Case> {
         (ff::prog(tier.pick(8, 12)), prop::bool::weighted(0.8)).prop_map(|(prog, std)| Case { prog, std }).boxed()
